@@ -2,6 +2,7 @@ import Cvise.Drv.Binary
 import Cvise.Drv.Matcher
 import Cvise.Drv.Driver
 import Cvise.Drv.PassGroup
+import Cvise.Drv.Passes
 open Cvise.Drv
 
 def dispatch (line : String) : String :=
@@ -13,6 +14,7 @@ def dispatch (line : String) : String :=
   | "rx" :: args => handleRx args
   | "drv" :: _ => handleDrv line
   | "group" :: _ => handleGroup line
+  | "pass" :: args => handlePass args
   | _ => "bad-op"
 
 partial def loop (h : IO.FS.Stream) (out : IO.FS.Stream) : IO Unit := do
